@@ -62,3 +62,39 @@ pub fn run() {
         }
     }
 }
+
+/// probe: PropertyChanged::get refetch racing a newer PropertiesChanged
+pub fn refetch() {
+    use std::collections::HashMap;
+    use zvariant::Value;
+    let (conn, mut bus) = connect();
+    let mut b = Slot::new(
+        zbus::proxy::Builder::<zbus::Proxy<'static>>::new(&conn)
+            .destination(":1.7").unwrap().path("/obj").unwrap().interface("com.example.I").unwrap()
+            .cache_properties(CacheProperties::Yes).build());
+    quiesce(&mut bus, Some(&conn), &mut [&mut b], true);
+    let c = bus.take_call("GetAll").unwrap();
+    let mut snap: HashMap<String, Value> = HashMap::new();
+    snap.insert("P".into(), Value::U32(1));
+    bus.release(&FakeBus::reply(&c, ":1.7", &snap));
+    quiesce(&mut bus, Some(&conn), &mut [&mut b], true);
+    let proxy = b.out.take().unwrap().unwrap();
+    let mut s = Slot::new(proxy.receive_property_changed::<u32>("P"));
+    quiesce(&mut bus, Some(&conn), &mut [&mut s], true);
+    let mut stream = s.out.take().unwrap();
+    let none: HashMap<String, Value> = HashMap::new();
+    bus.release(&FakeBus::signal(":1.7", None, "/obj", "org.freedesktop.DBus.Properties", "PropertiesChanged", &("com.example.I", none, vec!["P"])));
+    let mut n = Slot::new(stream.next());
+    quiesce(&mut bus, Some(&conn), &mut [&mut n], true);
+    let item = n.out.take().unwrap().unwrap();
+    eprintln!("cached after inval: {:?}", proxy.cached_property::<u32>("P"));
+    let mut g = Slot::new(item.get());
+    quiesce(&mut bus, Some(&conn), &mut [&mut g], true);
+    let c = bus.take_call("Get").unwrap();
+    bus.release(&FakeBus::reply(&c, ":1.7", &Value::U32(901)));
+    let mut ch: HashMap<String, Value> = HashMap::new();
+    ch.insert("P".into(), Value::U32(55));
+    bus.release(&FakeBus::signal(":1.7", None, "/obj", "org.freedesktop.DBus.Properties", "PropertiesChanged", &("com.example.I", ch, Vec::<&str>::new())));
+    quiesce(&mut bus, Some(&conn), &mut [&mut g], false);
+    eprintln!("get() -> {:?}; cached now: {:?} (received order: Get reply 901, then Changed P=55)", g.out.take(), proxy.cached_property::<u32>("P"));
+}
